@@ -119,7 +119,8 @@ theorem fill_win (inp : List UInt8) (G : Prop) (r : Reader) (hb : Win inp G r) :
   have hlc := hb.len_cur
   refine ⟨br', (r.br.src.inp.drop r.br.src.cursor).take n, n, hfill, hstep.buf, hstep.cap,
     by rw [hstep.cursor, hlen], by rw [hlen, hn], ?_, ?_, hlen.symm⟩
-  · refine ⟨?_, ?_, ?_, hb.polwf, hb.polg, ?_, ?_, ?_, ?_, ?_⟩
+  · refine ⟨?_, ?_, ?_, hb.polwf, hb.polg, ?_, ?_, ?_, ?_, ?_,
+      by simp only [hstep.seekFails]; exact hb.nosf⟩
     · simp only [hstep.inp, hb.inp_eq]
     · simp only [hstep.cursor]; omega
     · simp only
@@ -276,9 +277,9 @@ theorem resume_spec (inp : List UInt8) (G : Prop) (mk : Bool) (f : Nat) :
           ⟨n, hn, hans, hg⟩ | ⟨hans, hg⟩
         · generalize hr1 : growOk r n = r1 at hg
           have hw1 : Win inp G r1 := by
-            obtain ⟨a, b, c, d, e, f, g, i, w, k⟩ := hw
+            obtain ⟨a, b, c, d, e, f, g, i, w, k, z⟩ := hw
             subst hr1
-            exact ⟨a, b, c, d, e, by simp only [growOk]; omega, by simp only [growOk]; omega, i, w, k⟩
+            exact ⟨a, b, c, d, e, by simp only [growOk]; omega, by simp only [growOk]; omega, i, w, k, z⟩
           obtain ⟨br', ext, m, hfill, hbuf, hcap, hcur, hext, hw2, he2, -⟩ := fill_win inp G r1 hw1
           rw [resume_grow f ip mk r r1 br' m hlt hp hg hfill]
           have e1 : r1.br.buf = r.br.buf := by subst hr1; rfl
@@ -335,8 +336,8 @@ theorem resume_spec (inp : List UInt8) (G : Prop) (mk : Bool) (f : Nat) :
             obtain ⟨n, hn, -⟩ := hw.polg hG r.pol.hist r.br.cap (by have := hb.cap3; omega)
             rw [hn] at hans
             cases hans
-          · obtain ⟨a, b, c, d, e, f, g, i, w, k⟩ := hw
-            exact ⟨a, b, c, d, e, f, g, i, w, k⟩
+          · obtain ⟨a, b, c, d, e, f, g, i, w, k, z⟩ := hw
+            exact ⟨a, b, c, d, e, f, g, i, w, k, z⟩
       | false =>
         -- make room
         obtain ⟨hmr, hpre'⟩ := makeRoom_spec r ip hsc.1
@@ -347,9 +348,9 @@ theorem resume_spec (inp : List UInt8) (G : Prop) (mk : Bool) (f : Nat) :
           intro h0
           simp [h0] at hp
         have hw1 : Win inp G r1 := by
-          obtain ⟨a, b, c, d, e, f, g, i, w, k⟩ := hw
+          obtain ⟨a, b, c, d, e, f, g, i, w, k, z⟩ := hw
           subst hr1
-          refine ⟨a, b, c, d, e, f, ?_, ?_, ?_, ?_⟩
+          refine ⟨a, b, c, d, e, f, ?_, ?_, ?_, ?_, z⟩
           · simp only [BufRd.consume, List.length_drop]; omega
           · simp only [BufRd.consume, List.length_drop]; omega
           · simp only [BufRd.consume, List.length_drop]
